@@ -57,6 +57,7 @@ ApplyF(ms, a) ==
     [] a.op = "Unified"    -> DoUnified(ms, a)
     [] a.op = "GetRecord"  -> DoGetRecord(ms, a)
     [] a.op = "CompareAll" -> DoCompareAll(ms, a)
+    [] a.op = "CopyRec"    -> DoCopyRec(ms, a)
 
 (* Fold ApplyF over a sequence of actions *)
 RECURSIVE RunF(_, _, _)
@@ -82,7 +83,7 @@ InitMs(init) ==
 (* ---- projection of the model state, in the shape the harness logs ---- *)
 ProjNs(st) == [reg |-> st.reg, dflt |-> st.dflt]
 ProjAllNs(ms) == [h \in DOMAIN ms.con |-> ProjNs(ms.mgr[ms.con[h].mgr])]
-Parents(ms) == [h \in DOMAIN ms.con |-> ms.con[h].doc]
+Parents(ms) == [h \in DOMAIN ms.con |-> ms.con[h].doc]   \* for a loose record: its bundle
 
 ProjVal(v) ==
   CASE v.t = "qn"  -> [t |-> "qn", u |-> Uri(v.q)]
